@@ -190,6 +190,9 @@ impl W {
         self.ctx = p;
         crate::report::trace::set_ctx(p);
     }
+    fn domain(&mut self, d: &'static [&'static str]) {
+        crate::report::trace::set_domain(d);
+    }
 
     fn pick(&mut self, hint: Hint) -> Option<Entity> {
         let m = &self.model;
@@ -732,6 +735,7 @@ impl W {
 
     fn op_create(&mut self, kind: usize) -> R {
         self.set_ctx("C05");
+        self.domain(&["C01", "C02", "C05", "C09", "C17"]);
         match kind {
             0 => {
                 // World::create_entity().with(..).build()
@@ -863,6 +867,7 @@ impl W {
 
     fn op_delete_now(&mut self, h: Entity) -> R {
         self.set_ctx("C05");
+        self.domain(&["C01", "C02", "C05", "C17"]);
         let r = self.world_mut().delete_entity(h);
         self.log(format!("delete_now({:?}) -> {}", h, if r.is_ok() { "ok" } else { "err" }));
         let exp = self.model.not_dead(h);
@@ -885,6 +890,7 @@ impl W {
 
     fn op_delete_batch(&mut self, list: Vec<Entity>) -> R {
         self.set_ctx("C05");
+        self.domain(&["C01", "C02", "C05", "C17"]);
         let r = self.world_mut().delete_entities(&list);
         self.log(format!(
             "delete_batch({:?}) -> {}",
@@ -929,6 +935,7 @@ impl W {
 
     fn op_delete_atomic(&mut self, h: Entity) -> R {
         self.set_ctx("C05");
+        self.domain(&["C01", "C02", "C05", "C17"]);
         let r = self.world().entities().delete(h);
         self.log(format!("delete_atomic({:?}) -> {}", h, if r.is_ok() { "ok" } else { "err" }));
         let exp = self.model.not_dead(h);
@@ -948,6 +955,7 @@ impl W {
 
     fn op_delete_all(&mut self) -> R {
         self.set_ctx("C05");
+        self.domain(&["C01", "C02", "C05", "C17"]);
         self.world_mut().delete_all();
         self.log("delete_all()".into());
         let all = self.model.not_dead_sorted();
@@ -961,6 +969,7 @@ impl W {
     fn op_maintain(&mut self) -> R {
         let had_queue = !self.queue.is_empty();
         self.set_ctx(if had_queue { "C09" } else { "C05" });
+        self.domain(&["C01", "C02", "C05", "C09", "C17"]);
         if !self.env.log.lock().unwrap().is_empty() {
             let id = self.env.log.lock().unwrap()[0].id;
             return Err(("C09", format!("queued action #{} ran before maintain was called", id)));
@@ -998,6 +1007,7 @@ impl W {
         let p = self.payload();
         let alive = self.model.not_dead(h);
         self.set_ctx(if alive { "C04" } else { "C03" });
+        self.domain(if alive { &["C04", "C08"] } else { &["C03", "C08"] });
         let out = self.env.drivers[k].access(self.world(), h, path, p);
         self.log(format!("access({}, {:?}, {:?}) -> {:?}", self.env.drivers[k].name(), h, path, out));
         if !alive {
@@ -1045,6 +1055,7 @@ impl W {
 
     fn op_lazy(&mut self) -> R {
         self.set_ctx("C09");
+        self.domain(&["C09"]);
         let regs = self.registered_storages();
         let c = self.rng.weighted(&[25, 12, 18, 45]);
         match c {
@@ -1117,6 +1128,7 @@ impl W {
             return Ok(());
         }
         self.set_ctx("C04");
+        self.domain(&["C04", "C08"]);
         let k = *self.rng.pick(&regs);
         self.env.drivers[k].clear(self.world());
         self.log(format!("clear({})", self.env.drivers[k].name()));
@@ -1133,6 +1145,7 @@ impl W {
     fn op_register(&mut self) -> R {
         // register a late storage, or re-register an existing one (must not reset it)
         self.set_ctx("C05");
+        self.domain(&["C05"]);
         let k = self.rng.below(self.nst);
         let how = self.rng.below(6) as u8;
         let drivers = self.env.drivers.clone();
